@@ -1,0 +1,18 @@
+//go:build verif
+// +build verif
+
+package store
+
+// This file is compiled only with the "verif" build tag (verification harnesses in /verif).
+
+// VerifSetMaxCandidateCount sets the size limit of the top-candidate list (an unexported package
+// variable) and returns the previous value, so that "more candidates than list slots" is reachable
+// with a handful of accounts.
+func VerifSetMaxCandidateCount(n int) int {
+	old := max_candidate_count
+	max_candidate_count = n
+	return old
+}
+
+// VerifMaxCandidateCount returns the current size limit of the top-candidate list.
+func VerifMaxCandidateCount() int { return max_candidate_count }
